@@ -15,6 +15,7 @@ E1 (exact reals, ties of round-to-nearest-step excluded):
   H1/compute_dynamics_with_field/controls               the same with float-time pre/post controls (prepare_controls -> Control.get_controls)
   H1/compute_dynamics_with_field/control_selection      cheap variant (scalar propagators): which control is applied at which step
   H1/MeanFieldTempo.field                               _time, _compute_field, _compute_field_derivative
+  H1/_estimate_dt_from_system/<system>                  sampling grid of guess_tempo_parameters / tempo_compute(parameters=None)
   H1/Tempo.compute, H1/MeanFieldTempo.compute           start_time handed to System.get_propagators, labels
   H1/PtTebd                                             PtTebd.time / results['time']
   H1/compute_correlations(_nt)                         the REAL correlation functions, real TimeDependentSystem, float correlation time
@@ -46,6 +47,7 @@ from vf import env as venv
 from vf.core import Case, Ob
 from vf.fpx import FCase, FOb, FInputs
 from vf.sym import S, SI
+from vf import tsym
 from vf.tsym import st, Opaque, exact_floats, congruence_axioms, guard_library_exceptions
 
 from checks import c13 as _c13
@@ -545,6 +547,91 @@ def _isnan(v):
     return isinstance(v, (complex, float, np.complexfloating, np.floating)) and v != v
 
 
+def _sym_linspace(start, stop, num=50, endpoint=True, **kw):
+    """np.linspace by its documented contract (num evenly spaced samples, end point included) -- numpy's own
+    implementation branches on `step == 0` and refuses symbolic scalars"""
+    if not venv._is_sym(start) and not venv._is_sym(stop):
+        return np.linspace(start, stop, num, endpoint=endpoint, **kw)
+    assert endpoint and num >= 2
+    out = np.empty(num, dtype=object)
+    for k in range(num):
+        out[k] = start + (stop - start) * Fraction(k, num - 1) if k < num - 1 else stop + 0
+    return out
+
+
+def _ite_max(*a, **kw):
+    """max() without path forks (If-terms): the estimator takes the maximum over ~30 sampled norms"""
+    if len(a) == 1:
+        a = tuple(a[0])
+    if not any(isinstance(v, (S, SI)) for v in a):
+        return max(*a, **kw) if len(a) > 1 else a[0]
+    m = S.of(a[0])
+    for v in a[1:]:
+        v = S.of(v)
+        if v.is_concrete() and m.is_concrete():
+            m = v if v.re > m.re else m
+        else:
+            m = S(z3.If(sym.zr(v.re) > sym.zr(m.re), sym.zr(v.re), sym.zr(m.re)))
+    return m
+
+
+class EstimateDt(_Base):
+    """_estimate_dt_from_system (guess_tempo_parameters / tempo_compute(parameters=None)): the time grid on which the
+    user's Hamiltonian, rates and Lindblad operators are sampled must move with the time origin"""
+    functions = ("oqupy/tempo.py:_estimate_dt_from_system", "oqupy/tempo.py:_max_tdependentsystem_frequency")
+    stubs = ("oqupy.tempo._spectral_norm -> opaque function of the matrix (LAPACK eigvalsh is outside the claim)",
+             "np.linspace -> its documented contract (num evenly spaced samples including both end points)",
+             "max() over the sampled norms as an If-term (no path fork)") + _Base.stubs[2:]
+    max_paths = 64
+    MAX_SAMPLES = 25           # 11 and 22 samples (thorough: 50 -> 11, 22, 44)
+
+    def __init__(self, kind):
+        self.kind = kind
+        self.id = "H1/_estimate_dt_from_system/%s" % kind
+        self.bounds = {"max_samples": self.MAX_SAMPLES, "d": 2}
+
+    @property
+    def env(self):
+        e = _env()
+        self._norm = Opaque("norm", _norm_concrete)
+        e["extra"]["oqupy.tempo._spectral_norm"] = self._norm
+        e["extra"]["oqupy.tempo.max"] = _ite_max
+        proxy = venv.NpProxy(dict(fpx.NP_OVERRIDES, linspace=_sym_linspace))
+        e["extra"]["oqupy.tempo.np"] = proxy
+        return e
+
+    @guard_library_exceptions
+    def run(self, inp):
+        start, tau, _ = self.times(inp)
+        span = st(inp.real("T", lo=Fraction(1, 2), hi=8))
+        u = _User(inp)
+        res, traces = [], []
+        # opaque values keyed by the SIMPLIFIED argument here: the estimator makes several hundred calls, pairwise
+        # congruence axioms would be quadratic; equal (normalised, linear) time arguments share their atom instead
+        old_keys, tsym.SIMPLIFY_KEYS = tsym.SIMPLIFY_KEYS, True
+        try:
+            with exact_floats():
+                for shift in (_zero(inp), tau):
+                    system = u.system(shift) if self.kind == "TimeDependentSystem" else u.field_system(shift)
+                    u.take()
+                    import warnings
+                    with warnings.catch_warnings():
+                        warnings.simplefilter("ignore")
+                        res.append(tempo_mod._estimate_dt_from_system(system, start + shift, start + shift + span, 1e-3, self.MAX_SAMPLES))
+                    traces.append(u.take())
+        finally:
+            tsym.SIMPLIFY_KEYS = old_keys
+        obs = _trace_obs(*traces)
+        obs.append(Ob.eq("estimated dt unchanged", res[1], res[0], key="estimate"))
+        return obs
+
+
+def _norm_concrete(m):
+    c = _to_complex(m)
+    v = float(np.max(np.abs(np.linalg.eigvalsh(np.conj(c.T) @ c))))
+    return sym.lift(np.array(v)).item() if isinstance(m, np.ndarray) and m.dtype == object else v
+
+
 class MeanFieldTempoField(_Base):
     functions = ("oqupy/tempo.py:MeanFieldTempo._time", "MeanFieldTempo._compute_field", "MeanFieldTempo._compute_field_derivative")
 
@@ -834,6 +921,7 @@ class ParseTimesFloat(FCase):
 def cases(tier):
     cs = [Propagators("sample"), Propagators("integrate"), FieldPropagators("sample"), FieldPropagators("integrate"),
           ComputeDynamics(), ComputeDynamicsWithField(), ComputeDynamicsWithFieldControls(), WithFieldControlSelection(), Correlations("compute_correlations_nt"), Correlations("compute_correlations", "anti"),
+          EstimateDt("TimeDependentSystem"), EstimateDt("TimeDependentSystemWithField"),
           MeanFieldTempoField(), TempoLayer("Tempo"), TempoLayer("MeanFieldTempo"),
           PtTebdTimes(), ControlTimes(1, 2), ControlTimes(1, 2, Fraction(1, 10)), ParseTimes("float"), ParseTimes("interval"), ParseTimesFloat()]
     if tier == "thorough":
@@ -847,6 +935,9 @@ def cases(tier):
                 c.MAXSTEP = 6
                 c.bounds = dict(c.bounds, max_step=6)
                 c.max_paths = 4000
+            if isinstance(c, EstimateDt):
+                c.MAX_SAMPLES = 50
+                c.bounds = dict(c.bounds, max_samples=50)
             if isinstance(c, ParseTimesFloat):
                 c.validation_points, c.timeout_s, c.fp_timeout_s = 12, 600, 300
         cs += [ControlTimes(2, 3), ComputeDynamics(Fraction(1, 10)), ComputeDynamicsWithFieldControls(Fraction(1, 10)), WithFieldControlSelection(Fraction(1, 10)), Correlations("compute_correlations", "ordered", Fraction(1, 10)),
